@@ -38,6 +38,11 @@ var PrecompiledContracts = map[common.Address]PrecompiledContract{
 
 // RunPrecompiledContract runs and evaluates the output of a precompiled contract.
 func RunPrecompiledContract(p PrecompiledContract, input []byte, contract *Contract, evm *EVM) (ret []byte, err error) {
+	// A state-modifying precompile is subject to the static-call restriction exactly like SSTORE:
+	// the interpreter's enforceRestrictions never sees it, so it has to be refused here.
+	if precompileWritesState(p) && evm.interpreter.readOnly {
+		return nil, errWriteProtection
+	}
 	gas := p.RequiredGas(input)
 	if contract.UseGas(gas) {
 		p.SetContext(evm)
@@ -48,6 +53,12 @@ func RunPrecompiledContract(p PrecompiledContract, input []byte, contract *Contr
 		return ret, err
 	}
 	return nil, ErrOutOfGas
+}
+
+// precompileWritesState tells whether a precompiled contract modifies account state when it runs.
+func precompileWritesState(p PrecompiledContract) bool {
+	_, ok := p.(*setRewardValue)
+	return ok
 }
 
 // setRewardValue
